@@ -126,6 +126,82 @@ func runHRefresh(dir, variant string, n1, n2, pool []string) string {
 	return "p1=" + p1 + " p2=" + p2 + " p3=" + p3
 }
 
+
+// lrefresh <variant> <names 1> <names 2> <pool>: the same history for the DHCP lease source (dnsmasq format): which pool
+// names the source's own LookupHost finds (L) or not (U) after loading file 1, after the rewrite + refresh, and one refresh
+// later. Every lookup has three seconds: a source that never comes back (a lock left held on the read-error path) is STUCK.
+func leaseText(names []string, longAfter int) string {
+	var sb strings.Builder
+	for i, n := range names {
+		if i == longAfter {
+			sb.WriteString("1700000000 aa:bb:cc:dd:ee:ff 10.9.9.9 " + strings.Repeat("x", 70000) + " *\n")
+		}
+		fmt.Fprintf(&sb, "1700000000 aa:bb:cc:dd:ee:%02x 10.0.0.%d %s *\n", 16+i, 10+i, strings.TrimSuffix(n, "."))
+	}
+	if longAfter >= len(names) {
+		sb.WriteString("1700000000 aa:bb:cc:dd:ee:ff 10.9.9.9 " + strings.Repeat("x", 70000) + " *\n")
+	}
+	return sb.String()
+}
+
+func runLRefresh(dir, variant string, n1, n2, pool []string) string {
+	path := filepath.Join(dir, "dnsmasq.leases")
+	_ = os.RemoveAll(path)
+	if err := os.WriteFile(path, []byte(leaseText(n1, -1)), 0644); err != nil {
+		return "ERR " + err.Error()
+	}
+	discovery.VerifSetLeaseFile(path, "dnsmasq")
+	d := &discovery.DHCP{}
+	ask := func() string {
+		res := make(chan string, 1)
+		go func() {
+			var sb strings.Builder
+			for _, n := range pool {
+				if len(d.LookupHost(n)) > 0 {
+					sb.WriteByte('L')
+				} else {
+					sb.WriteByte('U')
+				}
+			}
+			res <- sb.String()
+		}()
+		select {
+		case r := <-res:
+			return r
+		case <-time.After(3 * time.Second):
+			return "STUCK"
+		}
+	}
+	p1 := ask()
+	switch {
+	case variant == "ok" || variant == "emfile":
+		_ = os.WriteFile(path, []byte(leaseText(n2, -1)+"# v2\n"), 0644)
+	case variant == "dir":
+		_ = os.Remove(path)
+		_ = os.Mkdir(path, 0755)
+	case strings.HasPrefix(variant, "long:"):
+		k, _ := strconv.Atoi(variant[5:])
+		_ = os.WriteFile(path, []byte(leaseText(n2, k)), 0644)
+	}
+	_ = os.Chtimes(path, time.Now(), time.Now().Add(-time.Hour))
+	d.VerifExpire()
+	var old syscall.Rlimit
+	if variant == "emfile" {
+		_ = syscall.Getrlimit(syscall.RLIMIT_NOFILE, &old)
+		_ = syscall.Setrlimit(syscall.RLIMIT_NOFILE, &syscall.Rlimit{Cur: 0, Max: old.Max})
+	}
+	p2 := ask()
+	if variant == "emfile" {
+		_ = syscall.Setrlimit(syscall.RLIMIT_NOFILE, &old)
+	}
+	if p2 == "STUCK" {
+		return "p1=" + p1 + " p2=STUCK p3=STUCK"
+	}
+	d.VerifExpire()
+	p3 := ask()
+	return "p1=" + p1 + " p2=" + p2 + " p3=" + p3
+}
+
 func wireNameFromDotted(n string) []byte {
 	return wireName(strings.Split(strings.TrimSuffix(n, "."), ".")...)
 }
@@ -143,6 +219,11 @@ func init() {
 			c.Emit("hrefresh "+variant+" "+namesCSV(n1)+" "+namesCSV(n2)+" "+namesCSV(pool), out)
 			c.Stat("variant:" + strings.SplitN(variant, ":", 2)[0])
 		}
+		lone := func(variant string, n1, n2, pool []string) {
+			out := runLRefresh(dir, variant, n1, n2, pool)
+			c.Emit("lrefresh "+variant+" "+namesCSV(n1)+" "+namesCSV(n2)+" "+namesCSV(pool), out)
+			c.Stat("lease-variant:" + strings.SplitN(variant, ":", 2)[0])
+		}
 		dec := func(s string) []string {
 			if s == "-" {
 				return nil
@@ -158,6 +239,9 @@ func init() {
 				f := strings.Fields(l)
 				if len(f) == 5 && f[0] == "hrefresh" {
 					one(f[1], dec(f[2]), dec(f[3]), dec(f[4]))
+				}
+				if len(f) == 5 && f[0] == "lrefresh" {
+					lone(f[1], dec(f[2]), dec(f[3]), dec(f[4]))
 				}
 			}
 			return nil
@@ -181,6 +265,10 @@ func init() {
 				variant = "dir"
 			case 2, 3:
 				variant = "long:" + strconv.Itoa(r.Intn(len(n2)+1))
+			}
+			if i%3 == 2 {
+				lone(variant, n1, n2, hrPool)
+				continue
 			}
 			one(variant, n1, n2, hrPool)
 		}
